@@ -8,8 +8,10 @@
                                                    return registers (n_iregs++ == 0 ? 0 : 2)
      (G) machinize_call / target_machinize ret   mir-gen-x86_64.c:471-490, 950-970 -- generated code fetching /
                                                    returning results (AX / DX, XMM0 / XMM1, ST0 / ST1)
-   Every walker keeps one counter per register class; a result of a class whose registers are used up falls through to
-   the integer branch (as the C code does), an integer-branch result with both integer registers used is an error. *)
+   Every walker keeps one counter per register class.  In (S) and (G) a result of a class whose registers are used up
+   falls through to the integer branch (as the C code does) and an integer-branch result with both integer registers
+   used is an error; (A) tests the integer types first and has no fall-through: anything that does not find a register
+   of its own class is an error. *)
 From Coq Require Import List Bool Arith.
 Import ListNotations.
 
@@ -43,7 +45,22 @@ Definition ff_ireg (n : nat) : nat := if n =? 0 then 0 else 2.              (* n
 Definition gen_ireg (n : nat) : nat := if n =? 0 then 0 else 2.             (* n_iregs == 0 ? AX_HARD_REG : DX_HARD_REG *)
 
 Definition res_shim_walk := res_walk shim_ireg r_init.
-Definition res_ff_walk := res_walk ff_ireg r_init.
+(* (A): no fall-through *)
+Definition ff_res_step (s : rst) (t : rty) : option (rloc * rst) :=
+  match t with
+  | TInt => if r_ni s <? 2 then Some (Gpr (ff_ireg (r_ni s)), {| r_ni := S (r_ni s); r_nx := r_nx s; r_nf := r_nf s |}) else None
+  | TF | TD => if r_nx s <? 2 then Some (Xmm (r_nx s), {| r_ni := r_ni s; r_nx := S (r_nx s); r_nf := r_nf s |}) else None
+  | TLD => if r_nf s <? 2 then Some (St (r_nf s), {| r_ni := r_ni s; r_nx := r_nx s; r_nf := S (r_nf s) |}) else None
+  end.
+Fixpoint ff_res_walk (s : rst) (ts : list rty) : option (list rloc) :=
+  match ts with
+  | [] => Some []
+  | t :: r => match ff_res_step s t with
+              | None => None
+              | Some (l, s') => match ff_res_walk s' r with None => None | Some ls => Some (l :: ls) end
+              end
+  end.
+Definition res_ff_walk := ff_res_walk r_init.
 Definition res_gen_walk := res_walk gen_ireg r_init.
 
 (* what a C caller expects (SysV): the k-th result of a class sits in the k-th return register of that class,
